@@ -2653,6 +2653,13 @@ func (se *symExec) inline(fn *types.Func, fd *ast.FuncDecl, recv *val, args []va
 				bind(id, args[i])
 				if i < len(call.Args) && len(call.Args) == len(args) {
 					alias(id, call.Args[i])
+					// an argument that holds a described value (the result of a call) is shown as that value, not
+					// under the name of the caller's local
+					if v := args[i]; v.kind == vUnknown && strings.Contains(v.desc, "#") && v.lit == nil && !strings.Contains(v.desc, " ") {
+						if obj := se.info.Defs[id]; obj != nil && !assigned[obj] {
+							se.params[obj] = v.desc
+						}
+					}
 				}
 				se.nameByDesc(se.info.Defs[id], args[i])
 				if i < len(call.Args) {
